@@ -350,3 +350,20 @@ Proof.
     rewrite Hm. reflexivity. }
   rewrite Herows. reflexivity.
 Qed.
+
+(* ================= the backends agree ================= *)
+(* one well-formed in-memory geff, constructed through the three backends: the adapter views coincide -- they all
+   are the canonical view of the geff (spatial-graph on its domain) *)
+Theorem backends_agree g ids es cg :
+  wf_geff g ids es -> props_fit (length ids) (g_nprops g) -> props_fit (length es) (g_eprops g) ->
+  canon_geff g = Ok cg ->
+  nx_construct g = Ok cg /\
+  (exists r, rx_construct g = Ok r /\ canon_rx r = Some cg) /\
+  (forall pos names dt, sg_dom g pos ids es names dt ->
+     exists s, sg_construct g pos = Ok s /\ canon_sg s names (akeys (g_nprops g)) (akeys (g_eprops g)) = Ok cg).
+Proof.
+  intros Hwf Hfn Hfe Hc. split; [|split].
+  - eapply nx_construct_canon; eauto.
+  - eapply rx_construct_canon; eauto.
+  - intros pos names dt Hd. destruct (sg_construct_canon g pos ids es names dt cg Hd Hc) as [s [Hs [Hv _]]]. exists s. auto.
+Qed.
